@@ -1,0 +1,27 @@
+//go:build verif
+// +build verif
+
+package massdb_v1
+
+// Hooks for the verification harness (/verif). Compiled only with -tags verif.
+
+// VerifCacheSize, when set, overrides the size (bytes) of the plotting cache, so that
+// several windows occur at small bit lengths.
+var VerifCacheSize func(required uint64) (uint64, bool)
+
+// VerifPoint, when set, is called at named points of the two plotting passes
+// (pass "A" = pre-plot, "B" = plot; start/end = the window in records resp. half-indices).
+var VerifPoint func(name, pass string, start, end uint64)
+
+func verifCacheSize(required uint64) (uint64, bool) {
+	if VerifCacheSize != nil {
+		return VerifCacheSize(required)
+	}
+	return 0, false
+}
+
+func verifPoint(name, pass string, start, end uint64) {
+	if VerifPoint != nil {
+		VerifPoint(name, pass, start, end)
+	}
+}
